@@ -665,7 +665,7 @@ ALL_CACHES = [("Cache", "", ""), ("CacheOf", "string", "any")]
 
 
 def check_c05(ctx):
-    ks = (2, 3) if not ctx.thorough else (2, 3, 4, 8)
+    ks = (2, 3) if not ctx.thorough else (2, 3, 4, 5)   # the linearization search grows with k! per history; 8 racers took > 40 min
     scs = map_scenarios(ctx, ALL_MAPS[:2] if not ctx.thorough else ALL_MAPS, pick=("F10", "F11", "F9"))
     for (kind, kt, vt) in ALL_MAPS[:2]:
         for strat in scen.strategies(ctx.tier, lib.seed()):
